@@ -17,7 +17,7 @@ from sim.history import take_snap, check_unchanged, check_wf
 PROP = 'C11'
 LEVEL = 'exploration'
 EVAL_KEY = 'runs'
-C = 10.0
+C = 5.0      # worst observed err/eps on the repaired tree: 0.81 over 200 000 runs incl. graded spectra
 TIERS = {
     'quick': {'runs': 16000, 'opts': {}, 'chunk': 50},
     'thorough': {'runs': 300000, 'opts': {}, 'chunk': 100, 'time_cap': 1500},
@@ -28,7 +28,7 @@ RULE = ('per run: routine in {fast_matvec, dmrg_hadamard, amen_mv, amen_mm}; ord
         'torch PRNG (initial guess, rank kick, enrichment) is seeded per run from the run PRNG; on 25%% of runs primary SVD calls fail '
         'at seeded indices; distinct by (routine, order, dtype, value class, eps decade, guess kind, fault kind, singleton/odd-size flags)')
 ASSUMPTIONS = ['single-threaded BLAS, so a run is a pure function of (seed, run index, working tree)',
-               'oracle constant C=10: error <= 10*eps*||exact|| (calibrated: worst observed ratio err/eps < 1 on the unchanged tree)',
+               'oracle constant C=5: error <= 5*eps*||exact|| (calibrated: worst observed ratio err/eps 0.81 over 200 000 runs)',
                'exact product computed by the checker\'s own dense contraction in the operand dtype']
 REAL = ['torchtt fast_matvec/dmrg_matvec_python, dmrg_hadamard, amen_mv, amen_mm (working tree)', 'torch', 'numpy fallback SVD']
 STUB = ['failure of torch.linalg.svd at planned call indices']
@@ -68,7 +68,12 @@ def gen_case(rng):
     rk = lambda rmax=4: [1] + [rng.randint(1, rmax) for _ in range(d - 1)] + [1]
     p['RA'] = rk(3 if routine == 'amen_mm' else 4)
     p['RB'] = rk(3 if routine == 'amen_mm' else 4)
-    p['vals'] = rng.choice(['normal', 'normal', 'decay', 'scaled'])
+    p['vals'] = rng.choice(['normal', 'normal', 'decay', 'scaled', 'graded', 'graded', 'tiny', 'huge'])
+    # 'tiny'/'huge': the whole operand is scaled by 10^-+s (the contract is relative, so it must be scale invariant);
+    # half of these also have a graded spectrum
+    p['scale_exp'] = rng.randint(4, 15)
+    p['scale_graded'] = rng.random() < 0.5
+    p['graded'] = {'J': rng.randint(2, 5), 'step': rng.choice([0.5, 1.0, 1.5, 2.0])}
     p['eps'] = 10.0 ** (-rng.randint(1, 12))
     p['guess'] = rng.choice(['none', 'none', 'rank1', 'rank3', 'exact', 'perturbed'])
     p['nswp'] = None
@@ -83,8 +88,15 @@ def gen_case(rng):
     return p
 
 
-def shape_vals(cores, kind, g):
+def rng_even(p):
+    return p['vseed'] % 2 == 0
+
+
+def shape_vals(cores, kind, g, p=None):
     d = len(cores)
+    if kind in ('tiny', 'huge') and p is not None:
+        f_ = 10.0 ** (-p['scale_exp'] if kind == 'tiny' else p['scale_exp'])
+        return [c * f_ if k == 0 else c for k, c in enumerate(cores)]
     if kind == 'decay':
         out = []
         for c in cores:
@@ -107,21 +119,50 @@ def build(p):
     g = gen.vgen(p['vseed'])
     dt = p['dt']
     routine = p['routine']
-    if routine in ('fast_matvec', 'amen_mv'):
-        A = TT(shape_vals(gen.rand_cores(p['N'], p['RA'], dt, g, p['M']), p['vals'], g))
-        B = TT(shape_vals(gen.rand_cores(p['N'], p['RB'], dt, g), p['vals'], g))
+    if p['vals'] in ('tiny', 'huge') and p.get('scale_graded') or p['vals'] == 'graded':
+        J, st = p['graded']['J'], p['graded']['step']
+        if routine in ('fast_matvec', 'amen_mv'):
+            A = TT(gen.graded_cores(p['N'], J, st, dt, g, p['M']))
+            B = TT(gen.graded_cores(p['N'], J, st, dt, g))
+        elif routine == 'dmrg_hadamard':
+            A = TT(gen.graded_cores(p['N'], J, st, dt, g))
+            B = TT(gen.graded_cores(p['N'], J, st, dt, g))
+        else:
+            A = TT(gen.graded_cores(p['K'], J, st, dt, g, p['M']))
+            B = TT(gen.graded_cores(p['N'], J, st, dt, g, p['K']))
+    isg = p['vals'] == 'graded' or (p['vals'] in ('tiny', 'huge') and p.get('scale_graded'))
+    if isg and p['vals'] != 'graded':
+        f_ = 10.0 ** (-p['scale_exp'] if p['vals'] == 'tiny' else p['scale_exp'])
+        A = TT([c * f_ if k == 0 else c for k, c in enumerate(A.cores)])
+        if routine == 'dmrg_hadamard' or rng_even(p):
+            B = TT([c * f_ if k == 0 else c for k, c in enumerate(B.cores)])
+    if isg and routine in ('fast_matvec', 'amen_mv'):
+        Ad, Bd = gen.dense(A), gen.dense(B)
+        d = len(p['N'])
+        exact = torch.tensordot(Ad, Bd, dims=(list(range(d, 2 * d)), list(range(d))))
+        outN, outM = list(p['M']), None
+    elif isg and routine == 'dmrg_hadamard':
+        exact = gen.dense(A) * gen.dense(B)
+        outN, outM = list(p['N']), None
+    elif isg:
+        d = len(p['N'])
+        exact = torch.tensordot(gen.dense(A), gen.dense(B), dims=(list(range(d, 2 * d)), list(range(d))))
+        outN, outM = list(p['N']), list(p['M'])
+    elif routine in ('fast_matvec', 'amen_mv'):
+        A = TT(shape_vals(gen.rand_cores(p['N'], p['RA'], dt, g, p['M']), p['vals'], g, p))
+        B = TT(shape_vals(gen.rand_cores(p['N'], p['RB'], dt, g), p['vals'], g, p))
         Ad, Bd = gen.dense(A), gen.dense(B)
         d = len(p['N'])
         exact = torch.tensordot(Ad, Bd, dims=(list(range(d, 2 * d)), list(range(d))))
         outN, outM = list(p['M']), None
     elif routine == 'dmrg_hadamard':
-        A = TT(shape_vals(gen.rand_cores(p['N'], p['RA'], dt, g), p['vals'], g))
-        B = TT(shape_vals(gen.rand_cores(p['N'], p['RB'], dt, g), p['vals'], g))
+        A = TT(shape_vals(gen.rand_cores(p['N'], p['RA'], dt, g), p['vals'], g, p))
+        B = TT(shape_vals(gen.rand_cores(p['N'], p['RB'], dt, g), p['vals'], g, p))
         exact = gen.dense(A) * gen.dense(B)
         outN, outM = list(p['N']), None
     else:
-        A = TT(shape_vals(gen.rand_cores(p['K'], p['RA'], dt, g, p['M']), p['vals'], g))
-        B = TT(shape_vals(gen.rand_cores(p['N'], p['RB'], dt, g, p['K']), p['vals'], g))
+        A = TT(shape_vals(gen.rand_cores(p['K'], p['RA'], dt, g, p['M']), p['vals'], g, p))
+        B = TT(shape_vals(gen.rand_cores(p['N'], p['RB'], dt, g, p['K']), p['vals'], g, p))
         d = len(p['N'])
         exact = torch.tensordot(gen.dense(A), gen.dense(B), dims=(list(range(d, 2 * d)), list(range(d))))
         outN, outM = list(p['N']), list(p['M'])
@@ -216,9 +257,10 @@ def exec_case(p, res):
     ratio = err / (p['eps'] * ne) if ne > 0 else (0.0 if err == 0 else float('inf'))
     if not err <= bound:
         out.append(core.violation(PROP, 'ACCURACY', p['routine'], 'error', 'relative error %.3g = %.3g * eps (eps=%.0e), ranks %s' % (err / max(ne, 1e-300), ratio, p['eps'], gen.ints(y.R)), desc))
-    elif ratio > 1.0 and p['eps'] >= 1e-11:
+    elif ratio > 0.5 and p['eps'] >= 1e-11:
         res['near'].append((round(ratio, 3), fam))
-        core.bump(stats, 'probe.ratio_above_1')
+        if ratio > 1.0:
+            core.bump(stats, 'probe.ratio_above_1')
     return out, ratio
 
 
